@@ -9,6 +9,7 @@ mod obs;
 mod record_reader;
 mod reader;
 mod replay_reader;
+mod writer;
 
 use std::collections::HashMap;
 
@@ -106,6 +107,19 @@ fn main() {
         }
         "ns-rerun" => {
             let still = ns::rerun(&get("file", ""));
+            println!("{}", if still { "STILL-FAILS" } else { "PASSES-NOW" });
+            std::process::exit(if still { 1 } else { 0 });
+        }
+        "writer-replay" => {
+            let s = writer::replay(&get("file", ""), &get("prop", "C09"), &get("out-dir", "evidence/replay"));
+            println!("SUMMARY {}", serde_json::to_string(&s).unwrap());
+        }
+        "writer-record" => {
+            let s = writer::record(&get("out", "work/writer.ndjson"), seed, get("n", "300").parse().unwrap());
+            println!("SUMMARY {}", serde_json::to_string(&s).unwrap());
+        }
+        "writer-rerun" => {
+            let still = writer::rerun(&get("file", ""));
             println!("{}", if still { "STILL-FAILS" } else { "PASSES-NOW" });
             std::process::exit(if still { 1 } else { 0 });
         }
